@@ -164,6 +164,9 @@ def run_pack(ctx, spec):
     if res.violation:
         raise vlib.MachineryError("design-level check of AuthGate failed (model bug):\n" + res.violation)
     if rc != 0:
+        crash = vlib.go_crash(os.path.join(res.dir, "tlc.out")) if getattr(res, "dir", None) else None
+        if crash and crash[3]:
+            raise vlib.BrokerCrash("%s (pack %s, %s)" % (crash[0], name, algo), crash[1], crash[2])
         raise vlib.MachineryError("authgate replayer failed rc=%s (pack %s)" % (rc, name))
     summary, divs = None, []
     for line in out:
